@@ -338,7 +338,10 @@ def read_ndjson(path):
         for ln in f:
             ln = ln.strip()
             if ln:
-                evs.append(json.loads(ln))
+                try:
+                    evs.append(json.loads(ln))
+                except ValueError:
+                    pass      # a line cut short by a dying harness: the missing events are what the caller notices
     return evs
 
 
